@@ -238,13 +238,22 @@ class _StubLLH(object):
         self.b = b
         self.grads = grads
         self.calls = []
+        self.evals = []
 
     def calculate_ns_grad2(self, ns, ns_pidx, src_params_recarray, tl=None):
         self.calls.append((float(ns), int(ns_pidx), src_params_recarray is not None))
         return np.float64(self.b)
 
     def evaluate(self, fitparam_values, src_params_recarray=None, tl=None):
+        self.evals.append([float(v) for v in np.asarray(fitparam_values)])
         return (np.float64(0.0), np.array(self.grads, dtype=np.float64))
+
+
+def _as_float(x):
+    """the documented return type is a float: accept Python / numpy scalars and 0-d arrays only"""
+    if isinstance(x, np.ndarray) and x.ndim > 0:
+        raise TypeError('returned an array of shape %r instead of a float' % (x.shape,))
+    return float(x)
 
 
 def _call(fn):
@@ -276,7 +285,7 @@ def impl_ts(case, tsobj=None):
     pmm, idx, fp = _fp_of(case)
     if tsobj is None:
         tsobj = _ts_new('wilks')
-    return _call(lambda: float(tsobj(pmm=pmm, log_lambda=np.float64(_f(case['ll'])), fitparam_values=fp)))
+    return _call(lambda: _as_float(tsobj(pmm=pmm, log_lambda=np.float64(_f(case['ll'])), fitparam_values=fp)))
 
 
 def impl_tst(case, tsobj=None):
@@ -289,7 +298,10 @@ def impl_tst(case, tsobj=None):
         kw['grads'] = grads
     if tsobj is None:
         tsobj = _ts_new('taylor')
-    v, err = _call(lambda: float(tsobj(**kw)))
+    v, err = _call(lambda: _as_float(tsobj(**kw)))
+    for ev in stub.evals:
+        if ev != [float(x) for x in fp]:
+            err = err or 'protocol: llhratio.evaluate was called with fit parameters %r instead of %r' % (ev, fp.tolist())
     return v, err, stub.calls, idx
 
 
@@ -319,13 +331,16 @@ def _check_tst(case, v, err, calls, idx):
     if err:
         return 'LLHRatioZeroNsTaylorWilksTestStatistic(ns=%r, log_lambda=%r, layout %s) raised %s' % (ns, ll, case['layout'], err)
     if ns == 0:
-        if b == 0:
-            return None
-        want = _apex_exact(a, b)
+        if b == 0 and a != 0:
+            # -2a²/(4·0): no finite value exists; the code returns ±inf, the model `none`
+            return None if not math.isfinite(v) else 'zero-ns Taylor TS with a=%r, b=0 is %r although the quotient does not exist' % (a, v)
+        # a = 0 and b = 0: log-likelihood ratio flat up to second order, its apex value is 0
+        want = 0.0 if b == 0 else _apex_exact(a, b)
         if not _close(v, want, 1e-12 * abs(want)):
-            return 'zero-ns Taylor TS with a=%r, b=%r is %r, documented -2*a^2/(4*b) = %r' % (a, b, v, want)
-        if len(calls) != 1 or calls[0][0] != 0.0 or calls[0][1] != idx:
-            return 'calculate_ns_grad2 was called with (ns, ns_pidx, has recarray) = %r, expected one call with ns=0, ns_pidx=%d' % (calls, idx)
+            return 'zero-ns Taylor TS with a=%r, b=%r is %r, documented -2*a^2/(4*b) = %r%s' % (
+                a, b, v, want, ' (flat log-likelihood ratio: apex value 0)' if b == 0 else '')
+        if not calls or any(c[0] != 0.0 or c[1] != idx for c in calls):
+            return 'calculate_ns_grad2 was called with (ns, ns_pidx, has recarray) = %r, expected ns=0, ns_pidx=%d' % (calls, idx)
     else:
         want = 2.0 * ll if ns > 0 else -2.0 * ll
         if not _same(v, want):
@@ -395,6 +410,14 @@ def _shrink_hist(ctx, case, fn):
 # ---- real LLH-ratio objects
 
 def _build(case):
+    try:
+        return _build0(case)
+    except Exception as e:  # noqa
+        from harness.core import MachineryError
+        raise MachineryError('C12 fixture construction failed: %s: %s' % (type(e).__name__, e))
+
+
+def _build0(case):
     from harness import llh_fixtures as fx
     cfg = fx.make_cfg()
     Rs = [np.array(R, dtype=np.float64) for R in case['Rs']]
@@ -472,6 +495,11 @@ def o_ts_real(ctx, case):
         b += f * f * (-sxx - Fraction(nb, N * N))
         mag += f * f * (sxx + Fraction(nb, N * N))
     if b == 0:
+        # every selected event has R = 1 and there is no pure-background event (or no dataset has signal yield):
+        # log_lambda is flat up to second order, a = 0, and the apex value is 0
+        if a == 0 and not (o['taylor'] == 0.0):
+            return ('zero-ns Taylor TS on a real %s-dataset LLH ratio with a = 0 and b = 0 (all ratios 1, no pure-background '
+                    'events) is %r, the apex of the flat log-likelihood ratio is 0' % (case['mode'], o['taylor']))
         return None
     if abs(Fraction(o['b']) - b) > Fraction(1e-9) * mag:
         return 'calculate_ns_grad2 at ns=0 is %r, the second derivative of log_lambda is %r' % (o['b'], float(b))
@@ -495,6 +523,138 @@ def o_ts_real(ctx, case):
     if abs(a_fd - o['a']) > 1e-5 * (abs(o['a']) + float(mag) ** 0.5) or abs(b_fd - float(b)) > 1e-4 * float(mag):
         return 'finite differences of evaluate() give a=%r, b=%r; grads[ns]=%r, calculate_ns_grad2=%r' % (a_fd, b_fd, o['a'], o['b'])
     return None
+
+
+# ---- histories on one real LLH-ratio OBJECT (its per-event gradient cache is the state the Taylor variant depends on)
+
+def _lh_objects(case):
+    from harness import llh_fixtures as fx
+    c = {'mode': 'single', 'Rs': [[_fl(case['R'])]], 'Ns': [case['N']]}
+    fx, b, llh = _build(c)
+    return fx, b, llh
+
+
+def impl_lh(case):
+    """outputs of the g / t / u operations of the history, run on ONE real ZeroSigH0SingleDatasetTCLLHRatio"""
+    from skyllh.core.test_statistic import LLHRatioZeroNsTaylorWilksTestStatistic
+    fx, b, llh = _lh_objects(case)
+    fx2, b2_, fresh = _lh_objects(case)
+    idx = b.pmm.get_gflp_idx(name='ns')
+    fp0 = fx.fitparam_values(b.pmm, 0.0)
+    with np.errstate(all='ignore'):
+        (ll0, grads0) = fresh.evaluate(fx2.fitparam_values(b2_.pmm, 0.0))
+    tsobj = LLHRatioZeroNsTaylorWilksTestStatistic()
+    out = []
+    for op in case['ops']:
+        k = op[0]
+        if k == 'e':
+            with np.errstate(all='ignore'):
+                llh.evaluate(fx.fitparam_values(b.pmm, _f(op[1])))
+        elif k == 'n':
+            llh.initialize_for_new_trial()
+        elif k == 'g':
+            ns = _f(op[1])
+            rec = b.pmm.create_src_params_recarray(fx.fitparam_values(b.pmm, ns))
+            try:
+                out.append(('ok', float(llh.calculate_ns_grad2(ns=ns, ns_pidx=idx, src_params_recarray=rec))))
+            except RuntimeError:
+                out.append(('R',))
+            except Exception as e:  # noqa
+                out.append(('err', type(e).__name__))
+        else:
+            kw = dict(pmm=b.pmm, log_lambda=ll0, fitparam_values=fp0, llhratio=llh)
+            if k == 't':
+                kw['grads'] = np.array(grads0)
+            v, err = _call(lambda: _as_float(tsobj(**kw)))
+            out.append(('ok', v) if err is None else ('err', err))
+    return out
+
+
+def _lh_reference(case):
+    """exact second derivative at ns and the fresh-object Taylor TS (fractions)"""
+    N = case['N']
+    X = [(Fraction(r) - 1) / N for r in _fl(case['R'])]
+    nb = N - len(X)
+
+    def g2(ns):
+        ns = Fraction(ns)
+        return -sum(((x / (1 + ns * x)) ** 2 for x in X), Fraction(0)) - Fraction(nb) / (N - ns) ** 2
+    a = sum(X, Fraction(0)) - Fraction(nb, N)
+    b = g2(0)
+    ts0 = 0.0 if (a == 0 and b == 0) else (float(Fraction(-2) * a * a / (4 * b)) if b != 0 else float('inf'))
+    return g2, ts0
+
+
+def o_llh_history(ctx, case):
+    """the Taylor statistic at a fit result with ns = 0 does not depend on what the LLH-ratio object evaluated before
+    (other parameters, a new trial): it equals the value for a freshly evaluated object; calculate_ns_grad2 raises the
+    documented RuntimeError exactly when nothing was evaluated since construction / the last new trial, and right
+    after an evaluate at the same ns it is the second derivative"""
+    out = impl_lh(case)
+    g2, ts0 = _lh_reference(case)
+    it = iter(out)
+    last = None
+    hist = []
+    for op in case['ops']:
+        k = op[0]
+        hist.append(k + (repr(_f(op[1])) if len(op) > 1 else ''))
+        if k == 'e':
+            last = _f(op[1])
+        elif k == 'n':
+            last = None
+        elif k == 'g':
+            r = next(it)
+            if last is None:
+                if r != ('R',):
+                    return 'calculate_ns_grad2 without a preceding evaluate returned %r instead of raising RuntimeError (history %s)' % (r, ' '.join(hist))
+            elif r[0] != 'ok':
+                return 'calculate_ns_grad2 after evaluate raised %r (history %s)' % (r, ' '.join(hist))
+            elif last == _f(op[1]):
+                want = g2(last)
+                if abs(Fraction(r[1]) - want) > Fraction(1e-9) * abs(want) + Fraction(1, 10 ** 300):
+                    return 'calculate_ns_grad2(ns=%r) right after evaluate(ns=%r) is %r, the second derivative is %r' % (last, last, r[1], float(want))
+        else:
+            r = next(it)
+            how = 'explicit grads of ns=0' if k == 't' else 'grads=None'
+            if r[0] != 'ok':
+                return ('zero-ns Taylor TS (%s) on an LLH-ratio object with history [%s] raised %s; on a freshly evaluated object it is %r' % (
+                    how, ' '.join(hist[:-1]), r[1], ts0))
+            if not _close(r[1], ts0, 1e-9 * abs(ts0) + 1e-300) and not (math.isinf(ts0) and not math.isfinite(r[1])):
+                return ('zero-ns Taylor TS (%s) on an LLH-ratio object with history [%s] is %r; on a freshly evaluated object it is %r '
+                        '(R=%r, N=%d)' % (how, ' '.join(hist[:-1]), r[1], ts0, _fl(case['R']), case['N']))
+            last = 0.0 if True else last       # the statistic evaluates at the fit parameters itself
+    return None
+
+
+def _corr_lh(ctx, cases):
+    reqs = []
+    for c in cases:
+        N = c['N']
+        X = [(r - 1.) / N for r in _fl(c['R'])]
+        ops = ','.join({'e': 'e' + f2b(_f(op[1])) if len(op) > 1 else '', 'n': 'n', 'g': 'g' + f2b(_f(op[1])) if len(op) > 1 else '',
+                        't': 't', 'u': 't'}[op[0]] for op in c['ops'])
+        reqs.append('lh %d %d %s %s' % (N, len(X), flist(X), ops))
+    res = []
+    for c, ans in zip(cases, ctx.driver('C12', reqs) if reqs else []):
+        toks = [] if ans == '-' else ans.split(',')
+        out = impl_lh(c)
+        d = None
+        if len(toks) != len(out):
+            d = 'lh: %d outputs, model %d' % (len(out), len(toks))
+        else:
+            for i, (r, t) in enumerate(zip(out, toks)):
+                if t == 'R':
+                    bad = r != ('R',)
+                elif t == 'notfinite':
+                    bad = not (r[0] == 'ok' and not math.isfinite(r[1]))
+                else:
+                    m = b2f(t)
+                    bad = not (r[0] == 'ok' and _close(r[1], m, 1e-9 * abs(m) + 1e-300))
+                if bad:
+                    d = 'lh: output %d of history %r: implementation %r, model %s' % (i + 1, c['ops'], r, t if t in ('R', 'notfinite') else repr(b2f(t)))
+                    break
+        res.append(d)
+    return res
 
 
 def o_ana_chain(ctx, case):
@@ -678,10 +838,16 @@ def _root_tol(a, b, c, p, x):
     return 16 * (sD * err_x + abs(a) * err_x * err_x) + 1e-12 * scale
 
 
+def _on_line(v, prm, p):
+    a, b = prm
+    return abs(a * v + b - p) <= 1e-12 * (abs(a * v) + abs(b) + abs(p))
+
+
 def o_poly(ctx, case):
-    """the returned signal strength lies on the fitted curve at p_thr; a fitted parabola opening upwards is
-    replaced by the straight-line fit; of the two roots the one on the rising branch is returned; NaN only when
-    the fitted parabola never reaches p_thr"""
+    """for every monotone noisy curve polynomial_fit returns a finite signal strength at which the curve fitted by
+    np.polyfit takes the value p_thr: the degree-`deg` fit, or — degree 2 only — the straight-line fit when the fitted
+    parabola opens upwards or never reaches p_thr; on a parabola the root on the rising branch.  The only exemption is a
+    fitted curve with an exactly vanishing leading coefficient (no such signal strength exists)."""
     x, y, w, deg, p = _fl(case['x']), _fl(case['y']), _fl(case['w']), case['deg'], _f(case['pthr'])
     r = impl_poly(case)
     if deg not in (1, 2):
@@ -689,41 +855,36 @@ def o_poly(ctx, case):
     if r[0] != 'ok':
         return 'polynomial_fit(deg=%d) raised %s' % (deg, r[1])
     v = r[1]
-    params = _polyfit(x, y, deg, w)
-    used = deg
-    if deg == 2 and params[0] > 0:
-        used = 1
-        params = _polyfit(x, y, 1, w)
-    if used == 1:
-        a, b = params
-        if a == 0:
-            return None
-        res = abs(a * v + b - p)
-        tol = 1e-12 * (abs(a * v) + abs(b) + abs(p))
-        if not (res <= tol):
-            return ('polynomial_fit(deg=%d%s, p_thr=%r) = %r but the fitted line %r takes the value %r there' % (
-                deg, ', fell back to 1' if deg == 2 else '', p, v, params, a * v + b))
+    line = _polyfit(x, y, 1, w)
+    if deg == 1:
+        curve, must_line, may_line = None, True, True
+    else:
+        a, b, c = curve = _polyfit(x, y, 2, w)
+        D = Fraction(b) ** 2 - 4 * Fraction(a) * (Fraction(c) - Fraction(p))
+        near = abs(float(D)) <= 1e-12 * (b * b + abs(4 * a * (c - p)))
+        must_line = (a > 0 or D < 0) and not near
+        may_line = a > 0 or D < 0 or near
+    if not math.isfinite(v):
+        if (must_line and line[0] == 0) or (not may_line and curve[0] == 0):
+            return None                     # flat fitted curve: explicitly exempt
+        if deg == 2 and not (a > 0) and D < 0:
+            return ('polynomial_fit(deg=2, p_thr=%r) returned %r for a monotone noisy curve: the fitted parabola %r has its apex %r '
+                    'below p_thr, no fall-back is taken and no signal strength is returned (data x=%r, y=%r)' % (
+                        p, v, curve, c - b * b / (4 * a) if a != 0 else c, x, y))
+        return 'polynomial_fit(deg=%d, p_thr=%r) returned %r although the fitted curve reaches p_thr' % (deg, p, v)
+    if may_line and line[0] != 0 and _on_line(v, line, p):
         return None
-    a, b, c = params
-    D = Fraction(b) ** 2 - 4 * Fraction(a) * (Fraction(c) - Fraction(p))
-    if a == 0:
-        return None
-    if D < 0:
-        if v == v and abs(float(D)) > 1e-12 * (b * b + abs(4 * a * (c - p))):
-            return 'fitted parabola %r never reaches p_thr=%r but polynomial_fit returned %r' % (params, p, v)
-        return None
-    if v != v:
-        if float(D) > 1e-12 * (b * b + abs(4 * a * (c - p))):
-            return 'polynomial_fit(deg=2, p_thr=%r) returned NaN although the fitted parabola %r reaches p_thr' % (p, params)
-        return None
+    if must_line:
+        return ('polynomial_fit(deg=%d%s, p_thr=%r) = %r but the fitted line %r takes the value %r there' % (
+            deg, ', fall-back to 1' if deg == 2 else '', p, v, line, line[0] * v + line[1]))
     res = abs(float(Fraction(a) * Fraction(v) ** 2 + Fraction(b) * Fraction(v) + Fraction(c) - Fraction(p)))
-    if not (res <= _root_tol(a, b, c, p, v)):
+    if a == 0 or not (res <= _root_tol(a, b, c, p, v)):
         return 'polynomial_fit(deg=2, p_thr=%r) = %r but the fitted parabola %r takes the value %r there' % (
-            p, v, params, a * v * v + b * v + c)
+            p, v, curve, a * v * v + b * v + c)
     slope = 2 * a * v + b
     if slope < -(1e-9 * (abs(2 * a * v) + abs(b)) + 4 * _root_tol(a, b, c, p, v) / max(abs(v), 1e-300)):
         return ('polynomial_fit(deg=2, p_thr=%r) = %r lies on the falling branch of the fitted parabola %r '
-                '(slope %r); the other root %r is the one on the rising branch' % (p, v, params, slope, -b / a - v))
+                '(slope %r); the other root %r is the one on the rising branch' % (p, v, curve, slope, -b / a - v))
     return None
 
 
@@ -957,6 +1118,18 @@ def corr_request(case):
     raise ValueError(k)
 
 
+def _cmp_tst(v, err, model):
+    """Taylor TS: `notfinite` of the model <-> a non-finite float of the implementation"""
+    if err:
+        return 'tst: implementation %s, model %s' % (err, model)
+    if model == 'notfinite':
+        return None if not math.isfinite(v) else 'tst: implementation %r, model: no finite value (b = 0, a != 0)' % v
+    m = b2f(model)
+    if not _close(v, m, 1e-12 * abs(m)):
+        return 'tst: implementation %r, model %r' % (v, m)
+    return None
+
+
 def corr_compare(case, model):
     """None | text; implementation is run here"""
     k = case['kind']
@@ -968,10 +1141,7 @@ def corr_compare(case, model):
         return None
     if k == 'tst':
         v, err, calls, idx = impl_tst(case)
-        m = b2f(model)
-        if err or not _close(v, m, 1e-12 * abs(m)):
-            return 'tst: implementation %s, model %r' % (err or repr(v), m)
-        return None
+        return _cmp_tst(v, err, model)
     if k == 'pv':
         r = impl_pv(case)
         t = model.split(' ')
@@ -995,18 +1165,28 @@ def corr_compare(case, model):
     if k == 'poly':
         r = impl_poly(case)
         t = model.split(' ')
+        x, y, w = _fl(case['x']), _fl(case['y']), _fl(case['w'])
+        p = _f(case['pthr'])
+        near = False
+        if case['deg'] == 2:
+            try:
+                a2, b2, c2 = _polyfit(x, y, 2, w)
+                near = abs(b2 * b2 - 4 * a2 * (c2 - p)) <= 1e-12 * (b2 * b2 + abs(4 * a2 * (c2 - p))) or abs(a2) < 1e-300
+            except Exception:  # noqa
+                pass
         if t[0] == 'err':
-            # IndexError of the model = np.polyfit itself failed in the harness; nothing to compare
             if t[1] == 'I':
-                return None
+                # np.polyfit failed in the harness for this sample: the implementation must fail as well
+                return None if r[0] == 'err' else 'poly: np.polyfit rejects the sample but polynomial_fit returned %r' % (r,)
+            if t[1] == 'N':
+                ok = r[0] == 'ok' and not math.isfinite(r[1])
+                return None if (ok or near) else 'poly: implementation %r, model: no finite signal strength (zero leading coefficient)' % (r,)
             return None if r == ('err', t[1]) else 'poly: implementation %r, model %s' % (r, model)
         m, du = b2f(t[1]), int(t[2])
         if r[0] != 'ok':
             return 'poly: implementation %r, model %r (degree %d)' % (r, m, du)
         v = r[1]
-        x, y, w = _fl(case['x']), _fl(case['y']), _fl(case['w'])
         prm = _polyfit(x, y, du, w)
-        p = _f(case['pthr'])
         if du == 1:
             mag = (abs(p) + abs(prm[1])) / abs(prm[0]) if prm[0] != 0 else float('inf')
         else:
@@ -1015,11 +1195,12 @@ def corr_compare(case, model):
             mag = (abs(b) + math.sqrt(abs(D))) / abs(2 * a) if a != 0 else float('inf')
             # near a double root the square root amplifies rounding of the discriminant
             mag += math.sqrt(1e-7 * (b * b + abs(4 * a * (c - p)))) / abs(2 * a) if a != 0 else 0.0
-        if (v != v) != (m != m):
-            if du == 2 and abs(D) <= 1e-12 * (b * b + abs(4 * a * (c - p))):
-                return None
-            return 'poly: implementation %r, model %r (degree %d)' % (v, m, du)
-        if not _close(v, m, 1e-9 * mag):
+        if math.isfinite(v) != math.isfinite(m) or not _close(v, m, 1e-9 * mag):
+            if near and math.isfinite(v):
+                # the sign of a discriminant that vanishes within rounding decides the branch: either curve is acceptable
+                l1 = _polyfit(x, y, 1, w)
+                if _on_line(v, l1, p) or abs(a2 * v * v + b2 * v + c2 - p) <= 1e-6 * (abs(a2 * v * v) + abs(b2 * v) + abs(c2) + abs(p)):
+                    return None
             return 'poly: implementation %r, model %r (degree %d used, coefficients %r)' % (v, m, du, prm)
         return None
     if k == 'bind':
@@ -1036,6 +1217,8 @@ def o_corr(ctx, case):
         return _corr_real(ctx, [case])[0]
     if case['kind'] == 'hist':
         return _corr_hist(ctx, [case])[0]
+    if case['kind'] == 'lh':
+        return _corr_lh(ctx, [case])[0]
     return corr_compare(case, ctx.driver('C12', [corr_request(case)])[0])
 
 
@@ -1054,9 +1237,10 @@ def _corr_real(ctx, cases):
         start = len(reqs)
         for p in o['parts']:
             nsj = ns * p['f']
-            gs = [x * (1.0 / (1.0 + nsj * x)) for x in p['X']]
+            # the model itself evaluates (caches nsGradI at nsj) and then answers calculate_ns_grad2
             reqs.append('g1 %d %d %s %s' % (p['N'], p['nSel'], f2b(nsj), flist(p['X'])))
-            reqs.append('g2 %d %d %s %s' % (p['N'], p['nSel'], f2b(nsj), flist(gs)))
+            reqs.append('lh %d %d %s e%s,g%s' % (p['N'], p['nSel'], flist(p['X']), f2b(nsj), f2b(nsj)))
+            reqs.append('ll %d %d %s %s' % (p['N'], p['nSel'], f2b(nsj), flist(p['X'])))
         spans.append((start, len(o['parts']), None))
     ans = ctx.driver('C12', reqs) if reqs else []
     reqs2 = []
@@ -1065,11 +1249,12 @@ def _corr_real(ctx, cases):
         if o is None:
             pre.append(None)
             continue
-        g1 = [b2f(ans[start + 2 * j]) for j in range(n)]
-        g2 = [b2f(ans[start + 2 * j + 1]) for j in range(n)]
+        g1 = [b2f(ans[start + 3 * j]) for j in range(n)]
+        g2 = [b2f(ans[start + 3 * j + 1]) for j in range(n)]
+        lls = [b2f(ans[start + 3 * j + 2]) for j in range(n)]
         fs = [p['f'] for p in o['parts']]
         a_model = sum(f * g for f, g in zip(fs, g1))
-        pre.append((a_model, g2, fs))
+        pre.append((a_model, g2, fs, sum(lls)))
         reqs2.append('g2m %s %s' % (flist(g2), flist(fs)))
     ans2 = ctx.driver('C12', reqs2) if reqs2 else []
     bs = iter(ans2)
@@ -1090,9 +1275,13 @@ def _corr_real(ctx, cases):
         if o is None:
             res.append('real: evaluating the LLH ratio raised ' + err)
             continue
-        t_model, w_model = b2f(next(it)), b2f(next(it))
-        a_model, g2, fs = pr
+        t_tok, w_model = next(it), b2f(next(it))
+        t_model = float('inf') if t_tok == 'notfinite' else b2f(t_tok)
+        a_model, g2, fs, ll_model = pr
         ns = _f(c['ns'])
+        mag_ll = sum(sum(abs(math.log1p(ns * f * x)) for x in p['X']) + abs(p['N'] - p['nSel']) * abs(math.log1p(-ns * f / p['N']))
+                     for f, p in zip(fs, o['parts'])
+                     if all(1.0 + ns * f * x > 0 for x in p['X']) and ns * f < p['N']) + 1e-300
         stable = all(1.0 + ns * p['f'] * x > 1e-3 for p in o['parts'] for x in p['X'])
         mag_b = sum(f * f * (sum(x * x for x in p['X']) * 4 + abs(p['N'] - p['nSel']) / (p['N'] - ns * f) ** 2 * 4)
                     for f, p in zip(fs, o['parts'])) + 1e-300
@@ -1101,10 +1290,13 @@ def _corr_real(ctx, cases):
             d = 'real/ts: implementation %s, model %r' % (o['wilks_err'] or repr(o['wilks']), w_model)
         elif o['b_err'] or (stable and not _close(o['b'], b_model, 1e-9 * mag_b)):
             d = 'real/grad2: implementation %s, model %r' % (o['b_err'] or repr(o['b']), b_model)
-        elif o['taylor_err'] or (stable and not _close(o['taylor'], t_model, 1e-9 * abs(t_model) + 1e-300)):
-            d = 'real/tst: implementation %s, model %r' % (o['taylor_err'] or repr(o['taylor']), t_model)
-        elif stable and ns == 0 and not _close(o['a'], a_model, 1e-9 * (abs(a_model) + mag_b ** 0.5)):
+        elif o['taylor_err'] or (stable and t_tok == 'notfinite' and math.isfinite(o['taylor'])) or (
+                stable and t_tok != 'notfinite' and not _close(o['taylor'], t_model, 1e-9 * abs(t_model) + 1e-300)):
+            d = 'real/tst: implementation %s, model %s' % (o['taylor_err'] or repr(o['taylor']), t_tok if t_tok == 'notfinite' else repr(t_model))
+        elif stable and not _close(o['a'], a_model, 1e-9 * (abs(a_model) + mag_b ** 0.5)):
             d = 'real/grad1: implementation %r, model %r' % (o['a'], a_model)
+        elif stable and not _close(o['ll'], ll_model, 1e-9 * mag_ll):
+            d = 'real/ll: implementation log_lambda %r, model llrStable %r' % (o['ll'], ll_model)
         res.append(d)
     return res
 
@@ -1121,15 +1313,19 @@ def _corr_hist(ctx, hcases):
         used = impl_hist(h)
         d = None
         for i, (c, u) in enumerate(zip(h['calls'], used)):
-            m = b2f(next(ans))
-            if d is None and (u[1] or not _close(u[0], m, 0.0 if h['cls'] == 'wilks' else 1e-12 * abs(m))):
-                d = 'hist: call %d (%s, layout %s, ns=%r): implementation %s, stateless model %r' % (
-                    i + 1, h['cls'], c['layout'], _f(c['ns']), u[1] or repr(u[0]), m)
+            tok = next(ans)
+            if h['cls'] == 'wilks':
+                bad = 'x' if (u[1] or not _same(u[0], b2f(tok))) else None
+            else:
+                bad = _cmp_tst(u[0], u[1], tok)
+            if d is None and bad:
+                d = 'hist: call %d (%s, layout %s, ns=%r): implementation %s, stateless model %s' % (
+                    i + 1, h['cls'], c['layout'], _f(c['ns']), u[1] or repr(u[0]), tok if tok == 'notfinite' else repr(b2f(tok)))
         res.append(d)
     return res
 
 
-ORACLES = {'purity': o_purity, 'ts_history': o_ts_history, 'ts': o_ts, 'ts_taylor': o_ts_taylor, 'ts_real': o_ts_real, 'ana_chain': o_ana_chain,
+ORACLES = {'llh_history': o_llh_history, 'purity': o_purity, 'ts_history': o_ts_history, 'ts': o_ts, 'ts_taylor': o_ts_taylor, 'ts_real': o_ts_real, 'ana_chain': o_ana_chain,
            'pval': o_pval, 'mixed': o_mixed, 'poly': o_poly, 'corr': o_corr}
 
 # property oracle looking at the same behaviour as a correspondence kind, and how to turn the case into its input
@@ -1138,6 +1334,7 @@ _ORACLE_OF_KIND = {
     'tst': [('ts_taylor', lambda c: c)],
     'real': [('ts_real', lambda c: c), ('ana_chain', lambda c: c)],
     'hist': [('ts_history', lambda c: c)],
+    'lh': [('llh_history', lambda c: c)],
     'pv': [('pval', lambda c: {'tsv': c['tsv'], 'thrs': [c['thr']]})],
     'mix': [('mixed', lambda c: c), ('pval', lambda c: {'tsv': c['tsv'], 'thrs': [c['thr']]})],
     'poly': [('poly', lambda c: c)],
@@ -1157,7 +1354,7 @@ def _classify(res):
     if m:
         return 'raises-' + m.group(1)
     for key, tag in (('a fresh instance gives', 'depends-on-earlier-calls'), ('outside [0,1]', 'range'), ('increases with', 'not-antitone'), ('smaller than the strict', 'ge-smaller'),
-                     ('trials', 'wrong-count'), ('falling branch', 'wrong-root'), ('never reaches', 'no-root'),
+                     ('trials', 'wrong-count'), ('falling branch', 'wrong-root'), ('no fall-back is taken', 'returns-nan'), ('never reaches', 'no-root'),
                      ('instead of raising', 'no-error')):
         if key in res:
             return tag
@@ -1245,6 +1442,10 @@ def gen_real(rng, nprng):
             R[:, 0] = 1.0                  # an event without any pull
         Rs.append(R.tolist())
         Ns.append(E + rng.choice([0, 0, 1, 3, 20]))
+    if rng.random() < 0.08:
+        # degenerate: every ratio 1 and no pure-background event -> a = b = 0
+        Rs = [[[1.0] * len(R[0]) for _k in R] for R in Rs]
+        Ns = [len(R[0]) for R in Rs]
     ns = rng.choice([0.0, 0.0, 0.0, -0.0, 1.5, -0.75, 0.25, -1e-3])
     if ns > 0:
         ns = min(ns, 0.6 * min(Ns))        # a fit result has ns < N
@@ -1296,6 +1497,29 @@ def gen_purity(rng):
         c['a'] = rng.choice([0.0, -0.25, 0.75, 2.0])
         c['b'] = rng.choice([-0.0625, -1.0, -4.0])
     return c
+
+
+def gen_lh(rng):
+    E = rng.choice([1, 2, 3, 5])
+    N = E + rng.choice([0, 0, 1, 3, 20])
+    R = [rng.choice([rng.uniform(0.0, 4.0), rng.uniform(0.0, 4.0), 1.0]) for _ in range(E)]
+    if rng.random() < 0.08:
+        R = [1.0] * E
+    def some_ns():
+        return rng.choice([0.0, 0.0, 0.25, 0.6, 0.6 * N, -0.3, -0.3 * N, 1e-3])
+    ops = []
+    for _ in range(rng.choice([1, 2, 3, 4, 6])):
+        k = rng.choice(['e', 'e', 'e', 'n', 'g', 't', 'u'])
+        if k == 'e':
+            ops.append(['e', some_ns()])
+        elif k == 'g':
+            ops.append(['g', rng.choice([some_ns()] + [op[1] for op in ops if op[0] == 'e'])])
+        else:
+            ops.append([k])
+    ops.append([rng.choice(['t', 'u', 'g'])] if True else None)
+    if ops[-1] == ['g']:
+        ops[-1] = ['g', 0.0]
+    return {'kind': 'lh', 'R': R, 'N': N, 'ops': ops}
 
 
 def gen_hist(rng):
@@ -1359,8 +1583,8 @@ def run(ctx):
         c = {'kind': 'ts', 'layout': layout, 'ns': ns, 'll': ll}
         cases.append(c)
         ocases.append(('ts', c))
-        a = rng.choice([0.0, -0.3, 0.7, rng.gauss(0, 2), 1e-8])
-        b = rng.choice([-0.05, -1.0, -rng.uniform(1e-6, 10), -1e-12, 0.25])
+        a = rng.choice([0.0, 0.0, -0.3, 0.7, rng.gauss(0, 2), 1e-8])
+        b = rng.choice([-0.05, -1.0, -rng.uniform(1e-6, 10), -1e-12, 0.25, 0.0, -0.0])
         c = {'kind': 'tst', 'layout': layout, 'ns': ns, 'll': ll, 'a': a, 'b': b}
         cases.append(c)
         ocases.append(('ts_taylor', c))
@@ -1370,6 +1594,13 @@ def run(ctx):
         ctx.count('hist:%s:len=%d' % (h['cls'], len(h['calls'])))
         ctx.count('hist:layout-changes', sum(1 for a, b in zip(h['calls'], h['calls'][1:]) if a['layout'] != b['layout']))
         ocases.append(('ts_history', h))
+    # ---- histories on one real LLH-ratio object
+    lhs = [gen_lh(rng) for _ in range(ctx.n(60, 1500))]
+    for c in lhs:
+        ctx.count('lh:ends-with-' + c['ops'][-1][0])
+        ctx.count('lh:stale-before-TS', int(any(o[0] in 'tu' and any(p[0] == 'e' and _f(p[1]) != 0 for p in c['ops'][:i])
+                                                for i, o in enumerate(c['ops']))))
+        ocases.append(('llh_history', c))
     # ---- purity of every helper (caller arrays untouched, same objects twice, input forms)
     for _ in range(ctx.n(300, 6000)):
         c = gen_purity(rng)
@@ -1433,6 +1664,11 @@ def run(ctx):
     for c, d in zip(reals, _corr_real(ctx, reals)):
         ctx.case(nontrivial=True, key=c, desc=c if ctx.evaluations % 97 == 0 else None)
         ctx.count('corr:real')
+        if d:
+            suspicious.append((c, None, d))
+    for c, d in zip(lhs, _corr_lh(ctx, lhs)):
+        ctx.case(nontrivial=True, key=c, desc=c if ctx.evaluations % 97 == 0 else None)
+        ctx.count('corr:lh')
         if d:
             suspicious.append((c, None, d))
     for c, d in zip(hists, _corr_hist(ctx, hists)):
